@@ -26,7 +26,8 @@ META = {
         '(D8) the literal sub-grammar agrees with its ZINC sibling (token languages and unescape step).  (D8) text chain: the filter text reaches hs_filter.parseString unchanged through filter_function, _filter_function and parse_filter.  (D7 also) the id index that `->` dereferencing uses is rebuilt/updated on every mutation (clauses shared with C15.D1/D3).  Also (D3): the binary branch template keeps the node or each operand parenthesised; (D5) __repr__ of every literal class shows its fields exactly (no rounding/formatting); (D8) the text chain starts at Grid.filter.  Not decided: '
         'semantic equivalence of compiled code and filter over all programs x data as an execution; spacing variants.'
         ' Also (D7): the last hop of a path is recognised by position, not by the name of the segment.'
-        ' Also (D5): the generated source is never the left operand of `%`.'),
+        ' Also (D5): the generated source is never the left operand of `%`.'
+        ' Also (D4): a mapping method called on the walked value needs AttributeError in the handler.  (D5) time literals are exact.'),
     'rule_text': 'obligations = grammar-structure facts, fold index coverage, operator-table rows, sentinel methods, '
                  'literal kinds x resolvability, generator branches, loop facts, sibling pairs',
     'trusted_base': ['pyparsing And/MatchFirst/ZeroOrMore token order; Python evaluates `a and b or c` with the usual '
@@ -69,6 +70,9 @@ def run(ctx):
     # literals reach the generated function as their repr(): the assembled source is not itself a %-format template
     from . import c12
     c12.format_of_fragments(ctx, m, 'C11.D5')
+    # a time literal denotes exactly the time it spells
+    from . import _zinc as _z
+    _z.time_literal_exact(ctx, 'C11.D5', MOD)
 
 
 class _Renamed(object):
@@ -1170,6 +1174,16 @@ def _get_path(ctx, m):
     else:
         V('C11.D4', 'except %s' % sorted(caught), '`a->b` on a row whose a is the number 5: 5["b"] raises TypeError out of '
           'Grid.filter instead of the comparison being false', '_get_path does not catch TypeError')
+    # attribute calls on the value being walked (`obj.get(tag, NOT_FOUND)`): a string / number / marker has no such
+    # method -- AttributeError, which the handler must turn into NOT_FOUND like the KeyError / TypeError of obj[tag]
+    attr_calls = [c for x in tr.body for c in ast.walk(x) if isinstance(c, ast.Call) and isinstance(c.func, ast.Attribute)
+                  and isinstance(c.func.value, ast.Name) and c.func.value.id == obj and c.func.attr in ('get', 'keys', 'items', '__getitem__')]
+    if attr_calls and not ({'AttributeError', 'Exception', 'BaseException'} & caught):
+        c0 = attr_calls[0]
+        V('C11.D4', norm(c0), '`siteRef->geoCity` on a grid where some row holds siteRef: "siteA" (a plain string, not a reference): '
+          'the value before the last hop is a str, `%s` raises AttributeError, the handler only catches %s, and Grid.filter aborts '
+          'instead of treating the path as absent' % (norm(c0)[:40], sorted(caught)),
+          '_get_path calls a mapping method on the walked value, but its handler does not catch AttributeError', c0.lineno)
     loops = [n for n in tr.body if isinstance(n, ast.For)]
     if len(loops) != 1:
         ctx.error('C11.D7', '_get_path: segment loop not found')
